@@ -4,7 +4,7 @@
     (the groups are the lists themselves) and the non-local one (the groups are columns).
     Part 2 (Proofs_Reduce2.v) carries it through the at-axis descent to [reduce_model] / [reduce_spec]. *)
 From Coq Require Import ZArith List Bool Lia ZifyBool.
-From AwkV Require Import Base Layout LayoutInd Valid Types AtAxis Carry Ops_Reduce Typing Proofs_Typing Proofs_C11
+From AwkV Require Import Base Layout LayoutInd Valid Types AtAxis Carry Ops_Reduce Typing Proofs_Typing Proofs_C11 Proofs_C03
                          Proofs_Lists Proofs_ToList Proofs_Carry Proofs_AtAxis Proofs_AtAxisOps.
 Import ListNotations.
 Open Scope Z_scope.
@@ -366,3 +366,339 @@ Section ZL.
     destruct (gatherG_ok vs G) as [xs Hxs]; [rewrite Hz; apply Hr, HG|]. rewrite Hxs. cbn [bind zipred].
     rewrite (gatherG_mapM _ _ _ _ _ Hpick Hl') in Hxs. rewrite (opt_filter vs0 l xs Hnn Hxs). reflexivity.
   Qed.
+
+  (* ---- list nodes *)
+  Definition sub_maxlen (sub : list (Z * (Z * Z))) : Z :=
+    fold_left Z.max (map (fun jse : Z * (Z * Z) => snd (snd jse) - fst (snd jse)) sub) 0.
+  Definition sub_col (q : Z) (sub : list (Z * (Z * Z))) : list (Z * Z) :=
+    flat_map (fun jse : Z * (Z * Z) => let s := fst (snd jse) in let e := snd (snd jse) in
+                                        if s + q <? e then [(fst jse, s + q)] else []) sub.
+  Definition sub_cols (sub : list (Z * (Z * Z))) : list (list (Z * Z)) :=
+    map (fun q => sub_col q sub) (iota (sub_maxlen sub)).
+
+  Lemma zl_list_eq p c cc groups :
+    list_content c = Some cc ->
+    zl r mask p c groups =
+    if is_strk p then Err EValue else
+    do bc <- list_bounds c;
+    do subs <- mapM (gatherG (fst bc)) groups;
+    do inner <- zl r mask None cc (concat (map sub_cols subs));
+    Ok (ListOffset I64 (offsets_from 0 (map sub_maxlen subs)) inner).
+  Proof. destruct c; try discriminate; intros H; inversion H; reflexivity. Qed.
+
+  Lemma zipred_list sz t' xs :
+    zipred r mask (TList sz None t') xs =
+    do ls <- mapM (fun jv : Z * value => match snd jv with VList l => Ok (fst jv, l) | _ => Err EValue end) xs;
+    rmap VList (mapM (fun p => zipred r mask t' (column p ls))
+                     (iota (fold_left Z.max (map (fun jl : Z * list value => zlen (snd jl)) ls) 0))).
+  Proof. reflexivity. Qed.
+
+  Lemma sub_lens vs0 sub : forall lsG,
+    mapS (cut1 vs0) sub = Ok lsG ->
+    map (fun jse : Z * (Z * Z) => snd (snd jse) - fst (snd jse)) sub = map (fun jl : Z * list value => zlen (snd jl)) lsG.
+  Proof.
+    induction sub as [|[j se] sub IH]; intros lsG H; unfold mapS in H; cbn [mapM] in H.
+    - inversion H. reflexivity.
+    - apply bind_Ok in H as (y & Hy & H). apply bind_Ok in H as (lsG' & Hls & H). inversion H; subst. clear H.
+      cbn [fst snd] in Hy. apply bind_Ok in Hy as (l & Hl & Hy). inversion Hy; subst. clear Hy.
+      cbn [map fst snd]. rewrite (IH _ Hls), (cut1_zlen _ _ _ Hl). reflexivity.
+  Qed.
+
+  (* THE KEY LEMMA (one level of the non-local reduction): the model's q-th group of positions below a
+     list node -- the positions start+q of the lists that are long enough -- denotes exactly the q-th
+     [column] of the specification, and there are as many columns as the longest list has elements *)
+  Lemma cols_column vs0 sub lsG :
+    mapS (cut1 vs0) sub = Ok lsG ->
+    sub_maxlen sub = fold_left Z.max (map (fun jl : Z * list value => zlen (snd jl)) lsG) 0 /\
+    forall q, 0 <= q -> gatherG vs0 (sub_col q sub) = Ok (column q lsG).
+  Proof.
+    intros H. split; [unfold sub_maxlen; rewrite (sub_lens _ _ _ H); reflexivity|].
+    intros q Hq. revert lsG H. induction sub as [|[j [s e]] sub IH]; intros lsG H; unfold mapS in H; cbn [mapM] in H.
+    - inversion H. reflexivity.
+    - apply bind_Ok in H as (y & Hy & H). apply bind_Ok in H as (lsG' & Hls & H). inversion H; subst. clear H.
+      cbn [fst snd] in Hy. apply bind_Ok in Hy as (l & Hl & Hy). inversion Hy; subst. clear Hy.
+      specialize (IH _ Hls). unfold sub_col, column in *. cbn [flat_map fst snd]. rewrite gatherG_app, IH.
+      pose proof (cut1_zlen _ _ _ Hl) as Hz. cbn [fst snd] in Hz.
+      destruct (s + q <? e) eqn:E.
+      + unfold cut1 in Hl. destruct (s =? e) eqn:Ese; [lia|].
+        pose proof (slice_inv _ _ _ _ Hl) as (H1 & H2 & H3 & _).
+        rewrite (get_slice _ _ _ _ q Hl) by lia. destruct (get_ok vs0 (s + q) ltac:(lia)) as [v Hv].
+        unfold gatherG. cbn [mapM fst snd]. rewrite Hv. reflexivity.
+      + rewrite (get_oob l q) by lia. reflexivity.
+  Qed.
+
+  Lemma mapM_map_eq {A B C} (H : A -> res B) (f : A -> C) (g : B -> C) xs ys :
+    mapM H xs = Ok ys -> (forall x y, In x xs -> H x = Ok y -> f x = g y) -> map f xs = map g ys.
+  Proof.
+    revert ys. induction xs as [|x xs IH]; intros ys Hm Hfg; cbn [mapM] in Hm.
+    - inversion Hm. reflexivity.
+    - apply bind_Ok in Hm as (y & Hy & Hm). apply bind_Ok in Hm as (ys' & Hys & Hm). inversion Hm; subst.
+      cbn [map]. rewrite (Hfg x y (or_introl eq_refl) Hy), (IH ys' Hys); [reflexivity|].
+      intros x' y' Hx'. apply Hfg. right. exact Hx'.
+  Qed.
+  Lemma mapM_ok_id {A} (f : A -> res A) l : (forall x, In x l -> f x = Ok x) -> mapM f l = Ok l.
+  Proof.
+    induction l as [|x l IH]; intros H; [reflexivity|]. cbn [mapM]. rewrite (H x (or_introl eq_refl)). cbn [bind].
+    rewrite IH; [reflexivity|]. intros y Hy. apply H. right. exact Hy.
+  Qed.
+  Lemma sub_maxlen_nonneg sub : 0 <= sub_maxlen sub.
+  Proof. unfold sub_maxlen. apply Proofs_C03.fold_max_ge. Qed.
+
+  Lemma zl_list c cc : list_content c = Some cc -> zl_ok cc -> zl_ok c.
+  Proof.
+    intros Hc IH p groups vs HV Hfr Hfin Hred Hl Hr.
+    destruct (Valid_param p c HV) as [-> | Es].
+    2:{ exfalso. destruct c; try discriminate; destruct p as [[]|]; try discriminate;
+          cbn [type_of_p strflag reducible] in Hred; discriminate. }
+    assert (Hsub : Valid None cc /\ frag1 cc = true /\ fin cc = true /\
+                   exists sz, type_of_p None c = TList sz None (type_of_p None cc)).
+    { destruct c; try discriminate; cbn [list_content] in Hc; inversion Hc; subst; inversion HV; subst;
+        cbn [frag1 fin type_of_p strflag] in *;
+        match goal with H : is_strk None = false -> Valid None _ |- _ => specialize (H eq_refl) end;
+        repeat split; auto; eexists; reflexivity. }
+    destruct Hsub as (HVc & Hfr' & Hfin' & sz & Hty). rewrite Hty in *. cbn [reducible] in Hred.
+    destruct (list_bounds_spec c cc vs Hc Hl) as (bs & vs0 & ls & Hb & Hl0 & Hcut & ->).
+    rewrite zlen_map, (mapM_zlen _ _ _ Hcut) in Hr.
+    destruct (mapM_gatherG bs groups Hr) as [subs Hsubs].
+    assert (HG : forall G sub, In G groups -> gatherG bs G = Ok sub ->
+                               exists lsG, mapS (cut1 vs0) sub = Ok lsG /\ gatherG ls G = Ok lsG).
+    { intros G sub HG Hsub. destruct (gatherG_ok ls G) as [lsG HlsG]; [rewrite (mapM_zlen _ _ _ Hcut); apply Hr, HG|].
+      exists lsG. split; [|exact HlsG]. rewrite <- HlsG. symmetry. apply (gatherG_mapM _ _ _ _ _ Hcut Hsub). }
+    set (groups' := concat (map sub_cols subs)).
+    assert (Hr' : in_range (zlen vs0) groups').
+    { intros G' HG' [j pos] Hjp. cbn [snd]. unfold groups' in HG'. apply in_concat in HG' as (L & HL & HG').
+      apply in_map_iff in HL as (sub & <- & Hsub). unfold sub_cols in HG'. apply in_map_iff in HG' as (q & <- & Hq).
+      apply iota_In' in Hq. unfold sub_col in Hjp. apply in_flat_map in Hjp as ([j' [s e]] & Hjse & Hjp). cbn [fst snd] in Hjp.
+      destruct (s + q <? e) eqn:E; [|contradiction]. destruct Hjp as [Hjp|[]]. inversion Hjp; subst. clear Hjp.
+      destruct (mapM_In_inv _ _ _ _ Hsubs Hsub) as (G & HGin & HGs).
+      destruct (gatherG_In _ _ _ _ _ HGs Hjse) as (k & _ & Hk).
+      destruct (mapM_Ok_In _ _ _ _ Hcut (get_In _ _ _ Hk)) as (l & Hl' & _). unfold cut1 in Hl'.
+      destruct (s =? e) eqn:Ese; [lia|]. pose proof (slice_inv _ _ _ _ Hl') as (H1 & H2 & H3 & _). lia. }
+    destruct (IH None groups' vs0) as (inner & ws' & Hzl & Ht & Hs); try assumption.
+    unfold zspec in Hs. unfold groups' in Hs. rewrite mapM_concat in Hs. apply rmap_Ok in Hs as (Wss & HW & ->).
+    rewrite mapM_map in HW.
+    exists (ListOffset I64 (offsets_from 0 (map sub_maxlen subs)) inner), (map VList Wss). split.
+    { rewrite (zl_list_eq _ _ _ _ Hc), Hb. cbn [is_strk bind fst]. rewrite Hsubs. cbn [bind]. fold groups'. rewrite Hzl. reflexivity. }
+    split.
+    - rewrite to_list_ListOffset, Ht. cbn [bind]. rewrite (cut_concat_lens Wss); [reflexivity|].
+      eapply mapM_map_eq; [exact HW|]. intros sub Ws _ HWs. cbv beta in HWs. rewrite (mapM_zlen _ _ _ HWs).
+      unfold sub_cols. rewrite zlen_map, zlen_iota by apply sub_maxlen_nonneg. reflexivity.
+    - unfold zspec. rewrite <- (mapM_bind _ _ _ _ Hsubs) in HW. eapply mapM_transfer; [exact HW|].
+      intros G Ws HGin HWs. cbv beta in HWs. apply bind_Ok in HWs as (sub & Hsub & HWs).
+      destruct (HG G sub HGin Hsub) as (lsG & HlsG & HgG). destruct (cols_column vs0 sub lsG HlsG) as [Hmax Hcol].
+      rewrite gatherG_map, HgG. cbn [rmap bind]. rewrite zipred_list, mapM_map.
+      rewrite (mapM_ext_in _ (fun jl : Z * list value => Ok jl)) by (intros [? ?] _; reflexivity).
+      rewrite mapM_ok_id by reflexivity. cbn [bind]. rewrite <- Hmax.
+      unfold sub_cols in HWs. rewrite mapM_map in HWs.
+      rewrite (mapM_ext_in _ (fun q => do xs <- gatherG vs0 (sub_col q sub); zipred r mask (type_of_p None cc) xs)).
+      + rewrite HWs. reflexivity.
+      + intros q Hq. apply iota_In' in Hq. rewrite (Hcol q) by lia. reflexivity.
+  Qed.
+
+  (* ---- RecordArray *)
+  Definition zl_all (groups : list (list (Z * Z))) : list content -> res (list content) :=
+    fix all (l : list content) : res (list content) :=
+      match l with
+      | [] => Ok []
+      | x :: xs => do y <- zl r mask None x groups; do ys <- all xs; Ok (y :: ys)
+      end.
+  Lemma zl_all_mapM groups cs : zl_all groups cs = mapM (fun x => zl r mask None x groups) cs.
+  Proof. induction cs as [|x xs IH]; [reflexivity|]. cbn [mapM zl_all]. fold (zl_all groups). rewrite IH. reflexivity. Qed.
+  Lemma zl_Record_eq p cs ks n groups :
+    zl r mask p (Record cs ks n) groups = do cs' <- zl_all groups cs; Ok (Record cs' ks (zlen groups)).
+  Proof. reflexivity. Qed.
+
+  Definition rfield (i : Z) (jv : Z * value) : res (Z * value) :=
+    match snd jv with
+    | VRec fs => do kv <- get fs i; Ok (fst jv, snd kv)
+    | VTup vs => do v <- get vs i; Ok (fst jv, v)
+    | _ => Err EValue
+    end.
+  Fixpoint rgo (xs : list (Z * value)) (i : Z) (ts : list ty) : res (list value) :=
+    match ts with
+    | [] => Ok []
+    | t1 :: ts' => do col <- mapM (rfield i) xs; do y <- zipred r mask t1 col; do ys <- rgo xs (i + 1) ts'; Ok (y :: ys)
+    end.
+  Definition wrap_rec (ks : option (list name)) (outs : list value) : res value :=
+    match ks with
+    | Some names => if Nat.eqb (length names) (length outs) then Ok (VRec (zip names outs)) else Err EValue
+    | None => Ok (VTup outs)
+    end.
+  Lemma zipred_rec ks ts xs : zipred r mask (TRec ks ts) xs = do outs <- rgo xs 0 ts; wrap_rec ks outs.
+  Proof.
+    cbn [zipred].
+    match goal with |- bind (?F 0 ts) _ = _ => assert (E : forall ts' i, F i ts' = rgo xs i ts') end.
+    { induction ts' as [|t1 ts' IH]; intros i; [reflexivity|]. cbn [rgo]. rewrite <- IH. reflexivity. }
+    rewrite E. reflexivity.
+  Qed.
+  Lemma row_wrap ks vss i : row ks vss i = do vs <- mapM (fun col : list value => get col i) vss; wrap_rec ks vs.
+  Proof. reflexivity. Qed.
+
+  Lemma rfield_row ks vss p v i col x j :
+    row ks vss p = Ok v -> get vss i = Ok col -> get col p = Ok x -> rfield i (j, v) = Ok (j, x).
+  Proof.
+    intros Hrow Hcol Hx. rewrite row_wrap in Hrow. apply bind_Ok in Hrow as (xs & Hxs & Hw).
+    assert (Hgi : get xs i = Ok x) by (rewrite (mapM_get _ _ _ i Hxs), Hcol; exact Hx).
+    unfold wrap_rec in Hw. destruct ks as [k|].
+    - destruct (Nat.eqb (length k) (length xs)) eqn:E; [|discriminate]. inversion Hw; subst v. apply Nat.eqb_eq in E.
+      unfold rfield. cbn [snd fst]. rewrite get_zip, Hgi.
+      destruct (get_ok k i) as [a Ha]; [apply get_range in Hgi; unfold zlen in *; lia|]. rewrite Ha. reflexivity.
+    - inversion Hw; subst v. unfold rfield. cbn [snd fst]. rewrite Hgi. reflexivity.
+  Qed.
+
+  Lemma rfield_group ks vss vs n i col G xs :
+    mapM (row ks vss) (iota n) = Ok vs -> get vss i = Ok col -> n <= zlen col -> gatherG vs G = Ok xs ->
+    exists cxs, gatherG col G = Ok cxs /\ mapM (rfield i) xs = Ok cxs.
+  Proof.
+    intros Hrows Hcol Hn. revert xs. induction G as [|[j p] G IH]; intros xs H; unfold gatherG in H; cbn [mapM] in H.
+    - inversion H. exists []. split; reflexivity.
+    - apply bind_Ok in H as (y & Hy & H). apply bind_Ok in H as (xs' & Hxs' & H). inversion H; subst. clear H.
+      cbn [fst snd] in Hy. apply bind_Ok in Hy as (v & Hv & Hy). inversion Hy; subst. clear Hy.
+      destruct (IH xs' Hxs') as (cxs & Hg1 & Hg2).
+      pose proof (get_range _ _ _ Hv) as Hp. assert (Hzn : zlen vs = n).
+      { rewrite (mapM_zlen _ _ _ Hrows). apply zlen_iota. destruct (Z_le_gt_dec 0 n); [assumption|].
+        exfalso. unfold iota in Hrows. replace (Z.to_nat n) with O in Hrows by lia. inversion Hrows; subst. cbn in Hp. lia. }
+      assert (Hrow : row ks vss p = Ok v).
+      { rewrite (mapM_get _ _ _ p Hrows), get_iota in Hv by lia. exact Hv. }
+      destruct (get_ok col p ltac:(lia)) as [x Hx].
+      exists ((j, x) :: cxs). unfold gatherG in *. cbn [mapM fst snd]. rewrite Hx, Hg1. cbn [bind].
+      rewrite (rfield_row _ _ _ _ _ _ _ j Hrow Hcol Hx), Hg2. split; reflexivity.
+  Qed.
+
+  Lemma rgo_pointwise xs : forall ts i ys,
+    zlen ys = zlen ts ->
+    (forall a t, get ts a = Ok t ->
+                 exists col y, mapM (rfield (i + a)) xs = Ok col /\ zipred r mask t col = Ok y /\ get ys a = Ok y) ->
+    rgo xs i ts = Ok ys.
+  Proof.
+    induction ts as [|t ts IH]; intros i ys Hz Hp.
+    - rewrite zlen_nil in Hz. apply zlen_0_nil in Hz. subst. reflexivity.
+    - destruct ys as [|y ys]; [rewrite zlen_nil, zlen_cons in Hz; pose proof (zlen_nonneg ts); lia|].
+      rewrite !zlen_cons in Hz. cbn [rgo].
+      destruct (Hp 0 t (get_cons_0 _ _)) as (col & y' & H1 & H2 & H3). rewrite get_cons_0 in H3. inversion H3; subst y'.
+      rewrite Z.add_0_r in H1. rewrite H1. cbn [bind]. rewrite H2. cbn [bind].
+      rewrite (IH (i + 1) ys); [reflexivity|lia|].
+      intros a t' Ha. pose proof (get_range _ _ _ Ha) as Hr. destruct (Hp (a + 1) t') as (col' & y' & H1' & H2' & H3').
+      { rewrite get_cons_S by lia. exact Ha. }
+      exists col', y'. rewrite get_cons_S in H3' by lia. replace (i + 1 + a) with (i + (a + 1)) by lia. auto.
+  Qed.
+
+  Lemma mapM_iota_get {A B} (F : A -> res B) l : mapM (fun k => do x <- get l k; F x) (iota (zlen l)) = mapM F l.
+  Proof.
+    pose proof (zlen_nonneg l). apply mapM_pointwise_eq; [apply zlen_iota; lia|].
+    intros j Hj. rewrite zlen_iota in Hj by lia. rewrite get_iota by lia. reflexivity.
+  Qed.
+
+  Lemma zl_Record cs ks n : Forall zl_ok cs -> zl_ok (Record cs ks n).
+  Proof.
+    intros IH p groups vs HV Hfr Hfin Hred Hl Hr. inversion HV; subst. cbn [frag1 fin type_of_p reducible] in *.
+    apply frag1_all in Hfr. apply fin_all in Hfin.
+    match goal with H : Forall (Valid None) cs |- _ => rename H into HVs end.
+    match goal with H : Forall (fun x => n <= clen x) cs |- _ => rename H into Hlens end.
+    match goal with H : forall k, ks = Some k -> _ |- _ => rename H into Hks end.
+    rewrite to_list_Record, all_lists_mapM in Hl. apply bind_Ok in Hl as (vss & Hvss & Hl).
+    destruct (n <? 0) eqn:En; [discriminate|].
+    assert (Hzn : zlen vs = n) by (rewrite (mapM_zlen _ _ _ Hl); apply zlen_iota; lia).
+    set (ts := map (type_of_p None) cs) in *.
+    (* every field, by the induction hypothesis *)
+    assert (Hx : forall x, In x cs -> exists col c' w, to_list x = Ok col /\ n <= zlen col /\ zl r mask None x groups = Ok c' /\
+                                                    to_list c' = Ok w /\ zspec (type_of_p None x) col groups = Ok w).
+    { intros x Hin. destruct (mapM_Ok_In _ _ _ _ Hvss Hin) as (col & Hcol & _).
+      rewrite Forall_forall in IH, Hfr, Hfin, HVs, Hlens.
+      assert (Hn : n <= zlen col) by (rewrite (to_list_len _ _ Hcol); apply Hlens, Hin).
+      destruct (IH x Hin None groups col) as (c' & w & Q1 & Q2 & Q3); auto.
+      - rewrite forallb_forall in Hred. apply Hred. unfold ts. apply in_map, Hin.
+      - intros G HG jp Hjp. specialize (Hr G HG jp Hjp). lia.
+      - exists col, c', w. auto. }
+    destruct (mapM_total (fun x => zl r mask None x groups) cs) as [cs' Hcs'].
+    { intros x Hin. destruct (Hx x Hin) as (col & c' & w & _ & _ & Qa & _). eauto. }
+    destruct (mapM_total to_list cs') as [wss Hwss].
+    { intros y Hy. destruct (mapM_In_inv _ _ _ _ Hcs' Hy) as (x & Hin & Hzl). destruct (Hx x Hin) as (col & c' & w & _ & _ & Qa & Qb & _).
+      rewrite Hzl in Qa. inversion Qa; subst. eauto. }
+    (* position by position *)
+    assert (Hat : forall a x, get cs a = Ok x ->
+                  exists col w, get vss a = Ok col /\ n <= zlen col /\ get wss a = Ok w /\ zspec (type_of_p None x) col groups = Ok w).
+    { intros a x Ha. destruct (Hx x (get_In _ _ _ Ha)) as (col & c' & w & Q1 & Q2 & Q3 & Q4 & Q5).
+      exists col, w. rewrite (mapM_get _ _ _ a Hvss), (mapM_get _ _ _ a Hwss), (mapM_get _ _ _ a Hcs'), Ha. cbn [bind].
+      rewrite Q1, Q3. cbn [bind]. auto. }
+    pose proof (zlen_nonneg groups) as Hm.
+    assert (Hw_len : forall w, In w wss -> zlen w = zlen groups).
+    { intros w Hw. destruct (mapM_In_inv _ _ _ _ Hwss Hw) as (y & Hy & Hyw). destruct (mapM_In_inv _ _ _ _ Hcs' Hy) as (x & Hin & Hzl).
+      destruct (Hx x Hin) as (col & c' & w' & _ & _ & Qa & Qb & Hs). rewrite Hzl in Qa. inversion Qa; subst c'.
+      rewrite Hyw in Qb. inversion Qb; subst w'. apply (mapM_zlen _ _ _ Hs). }
+    (* one group *)
+    assert (Hone : forall k G, get groups k = Ok G ->
+              exists v, row ks wss k = Ok v /\ (do xs <- gatherG vs G; zipred r mask (TRec ks ts) xs) = Ok v).
+    { intros k G HkG. pose proof (get_range _ _ _ HkG) as Hk.
+      destruct (gatherG_ok vs G) as [xs Hxs]; [apply Hr; eapply get_In, HkG|].
+      destruct (mapM_total (fun w : list value => get w k) wss) as [ys Hys].
+      { intros w Hw. apply get_ok. rewrite (Hw_len w Hw). exact Hk. }
+      assert (Hrgo : rgo xs 0 ts = Ok ys).
+      { apply rgo_pointwise.
+        - rewrite (mapM_zlen _ _ _ Hys), (mapM_zlen _ _ _ Hwss), (mapM_zlen _ _ _ Hcs'). unfold ts. rewrite zlen_map. reflexivity.
+        - intros a t Ha. unfold ts in Ha. rewrite get_map in Ha. apply rmap_Ok in Ha as (x & Hxa & ->).
+          destruct (Hat a x Hxa) as (col & w & Q1 & Q2 & Q3 & Q4).
+          destruct (rfield_group ks vss vs n a col G xs Hl Q1 Q2 Hxs) as (cxs & Hc1 & Hc2).
+          destruct (get_ok w k) as [y Hy]; [rewrite (Hw_len w (get_In _ _ _ Q3)); exact Hk|].
+          exists cxs, y. rewrite Z.add_0_l. split; [exact Hc2|]. split.
+          + unfold zspec in Q4. rewrite (mapM_get _ _ _ k Q4), HkG in Hy. cbn [bind] in Hy. rewrite Hc1 in Hy. exact Hy.
+          + rewrite (mapM_get _ _ _ a Hys), Q3. exact Hy. }
+      assert (Hwr : exists v, wrap_rec ks ys = Ok v).
+      { unfold wrap_rec. destruct ks as [k0|]; [|eauto]. rewrite (Hks k0 eq_refl).
+        replace (length ys) with (length cs); [rewrite Nat.eqb_refl; eauto|].
+        apply zlen_eq_length. rewrite (mapM_zlen _ _ _ Hys), (mapM_zlen _ _ _ Hwss), (mapM_zlen _ _ _ Hcs'). reflexivity. }
+      destruct Hwr as [v Hv]. exists v. rewrite row_wrap, Hys, Hxs. cbn [bind]. rewrite zipred_rec, Hrgo. cbn [bind]. auto. }
+    destruct (mapM_total (fun G => do xs <- gatherG vs G; zipred r mask (TRec ks ts) xs) groups) as [ws Hws].
+    { intros G HG. destruct (In_nth_error _ _ HG) as [k0 Hk0].
+      destruct (Hone (Z.of_nat k0) G) as (v & _ & Hv); [|eauto].
+      unfold get. destruct (Z.of_nat k0 <? 0) eqn:E; [lia|]. rewrite Nat2Z.id, Hk0. reflexivity. }
+    exists (Record cs' ks (zlen groups)), ws. split; [rewrite zl_Record_eq, zl_all_mapM, Hcs'; reflexivity|]. split; [|exact Hws].
+    rewrite to_list_Record, all_lists_mapM, Hwss. cbn [bind]. destruct (zlen groups <? 0) eqn:E; [lia|].
+    rewrite <- Hws, <- (mapM_iota_get (fun G => do xs <- gatherG vs G; zipred r mask (TRec ks ts) xs) groups). apply mapM_ext_in. intros k Hk. apply iota_In' in Hk.
+    destruct (get_ok groups k Hk) as [G HG]. rewrite HG. cbn [bind]. destruct (Hone k G HG) as (v & Q1 & Q2). rewrite Q1, Q2. reflexivity.
+  Qed.
+
+  (* ---- parameters: a reducible type has no string node *)
+  Lemma zl_Par a rn c : zl_ok c -> zl_ok (Par a rn c).
+  Proof.
+    intros IH p groups vs HV Hfr Hfin Hred Hl Hr. inversion HV; subst. cbn [frag1 fin type_of_p zl] in *.
+    match goal with H : Valid a c |- _ => rename H into HVc end.
+    assert (Ha : to_list c = Ok vs).
+    { rewrite to_list_Par in Hl. apply bind_Ok in Hl as (vs0 & Hl0 & Hl).
+      destruct (Valid_param a c HVc) as [-> | Es]; [inversion Hl; subst; exact Hl0|]. exfalso.
+      assert (Hp : ParamOk a c) by (inversion HVc; subst; try assumption; discriminate).
+      destruct (ParamOk_str a c Hp Es) as (cc & k & rn' & n & d & Hcc & _ & _).
+      destruct a as [[]|]; try discriminate Es; destruct c; try discriminate Hcc;
+        cbn [type_of_p strflag reducible] in Hred; discriminate Hred. }
+    apply IH; assumption.
+  Qed.
+
+  Theorem zl_spec_all c : zl_ok c.
+  Proof.
+    induction c as [dt shape data| |w o c IHc|w s e c IHc|c size zl IHc|w ix c IHc|w ix c IHc|m vw c IHc
+                   |m vw lsb n c IHc|c IHc|w t ix cs IHcs|cs ks n IHcs|arr rn c IHc] using content_ind'.
+    - apply zl_Numpy.
+    - apply zl_Empty.
+    - eapply zl_list; [reflexivity|exact IHc].
+    - eapply zl_list; [reflexivity|exact IHc].
+    - eapply zl_list; [reflexivity|exact IHc].
+    - apply zl_Indexed, IHc.
+    - eapply zl_option; [reflexivity|exact IHc].
+    - eapply zl_option; [reflexivity|exact IHc].
+    - eapply zl_option; [reflexivity|exact IHc].
+    - eapply zl_option; [reflexivity|exact IHc].
+    - intros p groups vs _ Hfr. discriminate.
+    - apply zl_Record, IHcs.
+    - apply zl_Par, IHc.
+  Qed.
+End ZL.
+
+(** [zl] on a layout = [zipred] on the values its groups of positions denote.  Local reduction is the
+    instance where the groups are the lists of one list node, non-local reduction the one where they are
+    the whole array (axis 0) or columns below list nodes. *)
+Theorem zl_spec r mask c groups vs :
+  Valid None c -> frag1 c = true -> fin c = true -> reducible (type_of c) = true ->
+  to_list c = Ok vs -> in_range (zlen vs) groups ->
+  exists c' ws, zl r mask None c groups = Ok c' /\ to_list c' = Ok ws /\ zspec r mask (type_of c) vs groups = Ok ws.
+Proof. intros. apply zl_spec_all; assumption. Qed.
+Print Assumptions zl_spec.
